@@ -30,8 +30,8 @@ def _data(name):
     input changes what the next call receives - seen as a result that depends on the history)."""
     import numpy as np
     if name not in _CALLER_DATA:
-        rs = np.random.RandomState({"a": 1, "b": 2, "c": 3, "m": 4, "v": 5}[name])
-        shape = {"a": (8, 6), "b": (5, 9), "c": (8, 6), "m": (16, 12), "v": (4, 5, 3)}[name]
+        rs = np.random.RandomState({"a": 1, "b": 2, "c": 3, "m": 4, "v": 5, "n": 6, "o": 7}[name])
+        shape = {"a": (8, 6), "b": (5, 9), "c": (8, 6), "m": (16, 12), "v": (4, 5, 3), "n": (24, 20), "o": (12, 16)}[name]
         _CALLER_DATA[name] = rs.rand(*shape)
     return _CALLER_DATA[name]
 
@@ -92,6 +92,14 @@ def execute(darsia, ctx, key):
         M.update_params(dim=2, mass_coeff=float(op[1]), diffusion_coeff=float(op[2]))
         x0 = _data("m")
         return M(x0, rhs=x0 * 2.0)
+    if name == "MGD":          # MGD|data : ONE homogeneous multigrid object called directly on arrays of several shapes, no update in between
+        M = ctx.setdefault("MGD", darsia.MG(depth=1, smoother_iterations=2, maxiter=2, dim=2, mass_coeff=1.0, diffusion_coeff=0.5))
+        x0 = _data(op[1])
+        return M(x0, rhs=x0 * 2.0)
+    if name == "JD":           # JD|data : the same for an explicit Jacobi object
+        J = ctx.setdefault("JD", darsia.Jacobi(maxiter=3, dim=2, mass_coeff=1.0, diffusion_coeff=0.5))
+        x0 = _data(op[1])
+        return J(x0, rhs=x0 * 2.0, h=1.0)
     if name == "MGH":          # MGH|seed : multigrid with heterogeneous (array) coefficients set once at construction
         if "MGH" not in ctx:
             rs = np.random.RandomState(7)
@@ -157,6 +165,8 @@ ALPHABET = {
     "tvd-array-weights": ["SBTVDA|bool|3", "SBTVDA|float64|4", "SBTVDA|float32|5", "SBTVD|a|0.5|1.0"],
     "mg-object": ["MG|1.0|1.0", "MG|1.0|0.1"],
     "mg-heterogeneous": ["MGH|2.0", "MGH|3.0"],
+    "mg-direct-shapes": ["MGD|m", "MGD|n", "MGD|o"],
+    "jacobi-direct-shapes": ["JD|a", "JD|b", "JD|m"],
     "mg-coefficients-replaced": ["MGU|A3|A4", "MGU|2.0|0.7", "MGU|2.0|A4", "MGU|A5|0.7"],
     "newton-direct": ["W1|newton|direct|0", "W1|newton|direct|1"],
     "bregman-amg": ["W1|bregman|amg|0", "W1|bregman|amg|1"],
